@@ -152,13 +152,21 @@ def check_coupling(ctx, key, m):
     from .common import stmts_of
     sn = selfname_of(m)
 
+    # the local that plays the role of "the constraints in force": whichever plain local is assigned from self._constraints
+    # (directly or through the and_ coupling) - found by data flow, not by its name
+    role = set()
+    for s in stmts_of(m.node):
+        if isinstance(s, ast.Assign) and len(s.targets) == 1 and isinstance(s.targets[0], ast.Name) and \
+                any(isinstance(x, ast.Attribute) and x.attr == '_constraints' and isinstance(x.value, ast.Name) and x.value.id == sn for x in ast.walk(s.value)):
+            role.add(s.targets[0].id)
+
     def rel(n):
-        if isinstance(n, ast.Name) and n.id == 'constraints' and isinstance(n.ctx, ast.Store):
+        if isinstance(n, ast.Name) and n.id in role and isinstance(n.ctx, ast.Store):
             return True
         return isinstance(n, ast.Attribute) and n.attr == '_useStrictRange'
-    asg = [s for s in stmts_of(m.node) if isinstance(s, ast.Assign) and isinstance(s.targets[0], ast.Name) and s.targets[0].id == 'constraints']
+    asg = [s for s in stmts_of(m.node) if isinstance(s, ast.Assign) and isinstance(s.targets[0], ast.Name) and s.targets[0].id in role]
     if not asg:
-        raise AnalysisError('no `constraints = ...` in %s' % m.qualname)
+        raise AnalysisError('no local is assigned from self._constraints in %s' % m.qualname)
     paths = [p for p in enumerate_paths(m.node, relevant=rel, unroll=(0, 1)) if p.exit != 'raise']
     ctx.stats['paths_enumerated'] += len(paths)
     results = {}
@@ -168,11 +176,11 @@ def check_coupling(ctx, key, m):
         node = None
         b = T.Builder()
         for e in p.events:
-            if e[0] == 'cond' and ''.join(unparse(e[1]).split()) == '%s._useStrictRange' % sn:
+            if e[0] == 'cond' and T.term(e[1]) == ('attr', ('name', sn), '_useStrictRange'):
                 strict = e[2]
-            elif e[0] == 'cond' and ''.join(unparse(e[1]).split()) == 'not%s._useStrictRange' % sn:
+            elif e[0] == 'cond' and T.term(e[1]) == ('not', ('attr', ('name', sn), '_useStrictRange')):
                 strict = not e[2]
-            elif e[0] == 'stmt' and isinstance(e[1], ast.Assign) and isinstance(e[1].targets[0], ast.Name) and e[1].targets[0].id == 'constraints':
+            elif e[0] == 'stmt' and isinstance(e[1], ast.Assign) and isinstance(e[1].targets[0], ast.Name) and e[1].targets[0].id in role:
                 val = T.simp(b.t(e[1].value))
                 node = e[1]
         if val is None:
